@@ -54,6 +54,7 @@ def _sort_ok(v: Any, ty: str) -> bool:
 def walk_check(tree: Any, src: str) -> tuple[str, Any] | None:
     lines = src.split("\n")
     nlines = len(lines)
+    blen = [len(ln) if ln.isascii() else len(ln.encode("utf-8", "surrogatepass")) for ln in lines]  # AST columns are UTF-8 bytes
     stack = [(tree, "")]
     while stack:
         node, path = stack.pop()
@@ -98,6 +99,6 @@ def walk_check(tree: Any, src: str) -> tuple[str, Any] | None:
                 return (f"WALK span-line-outside-source {cls.__name__}", {"path": path, "pos": pos, "nlines": nlines})
             # a column may point just past the line's newline character (the end of a token that ends the line)
             nl0, nl1 = int(l0 < nlines), int(l1 < nlines)
-            if not (0 <= c0 <= len(lines[l0 - 1]) + nl0 and 0 <= c1 <= len(lines[l1 - 1]) + nl1):
+            if not (0 <= c0 <= blen[l0 - 1] + nl0 and 0 <= c1 <= blen[l1 - 1] + nl1):
                 return (f"WALK span-column-outside-line {cls.__name__}", {"path": path, "pos": pos})
     return None
